@@ -17,12 +17,12 @@ def prop(pid, units, level, technique, design_ref, text, note):
 
 
 prop("C14",
-     units=[("verus", "u1_cell", None), ("kani", "u1k_cell", None), ("verus", "u10_optloop", None), ("native", "n4_loop_motion", None)],
+     units=[("verus", "u1_cell", None), ("kani", "u1k_cell", None), ("verus", "u10_optloop", None), ("native", "n4_loop_motion", None), ("native", "n6_cell_helpers", None)],
      level="proof",
      technique="Verus deductive proof of trait-level contracts on the real CellType code (all four widths), plus loop-free/width-bounded Kani contract harnesses as counterexample twins",
      design_ref="DESIGN.md section 4-U1, 5-C14",
      text="Unbounded proof: wrapping_div/inv/pow and the conversions are verified against mathematical contracts generic in the width; each of the four impls is verified against the trait contracts. Consumer obligation (unit u10): OptRebuild::analyze_loop, the one place where wrapping_div / wrapping_inv decide a loop's trip count, reports the LEAST k with m + k*inc == 0 (mod 2^bits), reports 'infinite' only when no k exists, and for an unknown initial value a count x with x*(-inc) == [cond]. Also proved (u10): opt::wrapping_geometric_sum(mul, count) == 1 + mul + ... + mul^(count-1) (mod 2^bits), the helper the geometric closed form of loop_motion is built on.",
-     note="Trusted: Verus+Z3, vstd, assume_specification of uN::{checked_shl,checked_shr,wrapping_neg}, the extractor's desugarings D1/D3/D10. In u10 the analysis state is reduced to three fields (D10), its knowledge comes through three uninterpreted boundary functions, Expr is opaque with the u4 contracts, and Expr::mul's contract is ASSUMED. The second consumer (geometric / arithmetic closed forms in loop_motion: HashSet/HashMap parameters, closures) is covered ONLY by a BOUNDED STAND-IN (unit n4_loop_motion: the real function on enumerated loop bodies, u8 exhaustive over multiplier and trip count; counted separately, never as proved).")
+     note="Trusted: Verus+Z3, vstd, assume_specification of uN::{checked_shl,checked_shr,wrapping_neg}, the extractor's desugarings D1/D3/D10. In u10 the analysis state is reduced to three fields (D10), its knowledge comes through three uninterpreted boundary functions, Expr is opaque with the u4 contracts, and Expr::mul's contract is ASSUMED. The second consumer (geometric / arithmetic closed forms in loop_motion: HashSet/HashMap parameters, closures) is covered ONLY by a BOUNDED STAND-IN (unit n4_loop_motion: the real function on enumerated loop bodies, u8 exhaustive over multiplier and trip count; counted separately, never as proved). A BOUNDED native twin (unit n6_cell_helpers: the same contracts evaluated exhaustively at u8 and on boundary + pseudo-random operands at 16/32/64 bits) runs next to the proof so that a REWRITTEN helper, for which the shape-anchored proof is only UNDECIDED, still gets a verdict; counted separately, never as proved.")
 
 prop("C18",
      units=[("kani", "u3_smallvec", None)],
@@ -53,28 +53,28 @@ prop("C04",
      # (a defect in CellType::from_u8 or Memory::write breaks C04 without touching inplace.rs)
      units=[("verus", "u7_inplace", None),
             ("verus", "u1_cell", r"fn (from_u8|into_u8|wrapping_add|from_u64|into_u64)$"),
-            ("kani", "u2_tape", None)],
+            ("kani", "u2_tape", None), ("native", "n7_inplace", None)],
      level="proof",
      technique="Verus deductive proof: lock-step simulation invariant between the real InplaceInterpreter::execute_in (extracted verbatim) and a canonical Brainfuck small-step specification",
      design_ref="DESIGN.md section 4-U7, 5-C04",
      text="Unbounded proof for every program shorter than 2^31 bytes, every input/fault oracle and every width (generic C): each outer-loop iteration is exactly one canonical step; the event log on return is the log of the canonical run, and Ok(true) is returned only when that run has halted; a third extraction (LIMITED=false, total) proves TERMINATION whenever the program is balanced and its canonical run halts (measure N - n). The callee contracts it relies on are discharged in the same check: CellType conversions/addition (Verus, unbounded) and the tape / Context operations (Kani, bounded in tape size).",
-     note="Assumes the tape view contracts (checked, bounded, in unit u2_tape), the Context::input/output oracle contracts (u2_tape) and the CellType ring contracts (proved in u1_cell; copied verbatim). Trusted: the canonical semantics in the unit template, vstd's str::as_bytes spec, Verus+Z3.")
+     note="Assumes the tape view contracts (checked, bounded, in unit u2_tape), the Context::input/output oracle contracts (u2_tape) and the CellType ring contracts (proved in u1_cell; copied verbatim). Trusted: the canonical semantics in the unit template, vstd's str::as_bytes spec, Verus+Z3. A BOUNDED native twin (unit n7_inplace: the real interpreter through the public API on all balanced programs of <= 5 commands and a long-run family, against canonical semantics written out in the test) runs next to the proof so that a RESTRUCTURED interpreter loop, for which the shape-anchored proof is only UNDECIDED, still gets a verdict; counted separately, never as proved.")
 
 prop("C07",
-     units=[("verus", "u7_inplace", r"#limited"), ("kani", "u5_bcint_ops", None), ("kani", "u6_jit", None), ("kani", "u8_irint", None), ("native", "n1_emit", None)],
+     units=[("verus", "u7_inplace", r"#limited"), ("kani", "u5_bcint_ops", None), ("kani", "u6_jit", None), ("kani", "u8_irint", None), ("native", "n1_emit", None), ("native", "n7_inplace", None)],
      level="model_checking",
      technique="Verus deductive proof of the LIMITED=true monomorphisation of the real in-place interpreter (simulation invariant + termination measure); Kani contract harnesses for the bytecode interpreter's limit op",
      design_ref="DESIGN.md section 4-U7, 5-C07",
      text="In-place backend (unbounded proof): budget-limited execution terminates (lexicographic measure), reports finished only when the canonical run halted, and its log is always a canonical prefix. Bytecode interpreter (Kani, per op): limit charges the budget, stops with registers spilled at budget <= cost and returns the next ip. IR interpreter (Kani, concrete block shapes): loops incl. nested ones stop with 'not finished' exactly at budget exhaustion and run nothing afterwards. JIT (Kani over all machine states): the emitted budget check terminates iff budget < 2.",
-     note="Proof covers the in-place interpreter; the other back ends are covered per mechanism and bounded. Placement of limit ops by build_threaded_code: bounded stand-in (native enumeration of programs of <= 3 instructions). Not decided: 'effectively unlimited budget reports finished' for the compiled back ends (needs C01-C03 in full); irint Calc arm.")
+     note="Proof covers the in-place interpreter; the other back ends are covered per mechanism and bounded. Placement of limit ops by build_threaded_code: bounded stand-in (native enumeration of programs of <= 3 instructions). Not decided: 'effectively unlimited budget reports finished' for the compiled back ends (needs C01-C03 in full); irint Calc arm. A BOUNDED native twin (unit n7_inplace: the real interpreter through the public API on all balanced programs of <= 5 commands and a long-run family, against canonical semantics written out in the test) runs next to the proof so that a RESTRUCTURED interpreter loop, for which the shape-anchored proof is only UNDECIDED, still gets a verdict; counted separately, never as proved.")
 
 prop("C08",
-     units=[("verus", "u7_inplace", None), ("kani", "u2_tape", None), ("kani", "u5_bcint_ops", None), ("kani", "u6b_jit_shims", None), ("kani", "u8_irint", None), ("kani", "u6_jit", None)],
+     units=[("verus", "u7_inplace", None), ("kani", "u2_tape", None), ("kani", "u5_bcint_ops", None), ("kani", "u6b_jit_shims", None), ("kani", "u8_irint", None), ("kani", "u6_jit", None), ("native", "n7_inplace", None)],
      level="model_checking",
      technique="Verus proof of the in-place stop path (stopped configuration, no later event) + loop-free Kani contract harnesses for Context::input/output result mapping over all reader/writer outcomes",
      design_ref="DESIGN.md section 4-U7/U2, 5-C08",
      text="Context::input/output map every reader/writer outcome as specified (complete, loop-free); the in-place interpreter stops at the failing operation with the canonical prefix and returns Ok (unbounded proof); bytecode input/output ops return the null ip without a store; the IR interpreter propagates a failure out of nested blocks with no later event (concrete block shapes); the JIT's runtime shims report input and output failure to the generated code.",
-     note="The JIT's generated call sequences around Inp/Out (argument set-up, push/pop symmetry, alignment, jump to the termination path iff the shim reports failure) are decided by unit u6 for enumerated cell offsets / live masks over all machine states. NOT decided: llvmjit (feature off); irint Calc arm.")
+     note="The JIT's generated call sequences around Inp/Out (argument set-up, push/pop symmetry, alignment, jump to the termination path iff the shim reports failure) are decided by unit u6 for enumerated cell offsets / live masks over all machine states. NOT decided: llvmjit (feature off); irint Calc arm. A BOUNDED native twin (unit n7_inplace: the real interpreter through the public API on all balanced programs of <= 5 commands and a long-run family, against canonical semantics written out in the test) runs next to the proof so that a RESTRUCTURED interpreter loop, for which the shape-anchored proof is only UNDECIDED, still gets a verdict; counted separately, never as proved.")
 
 prop("C02",
      units=[("kani", "u5_bcint_ops", None), ("kani", "u9_bc_passes", None), ("native", "n1_emit", None), ("native", "n2_bc_passes", None)],
